@@ -3,6 +3,7 @@ pub mod corpus;
 pub mod drivers;
 pub mod engine;
 pub mod families;
+pub mod farm;
 pub mod graph;
 pub mod interp;
 pub mod run;
@@ -49,6 +50,15 @@ pub fn main_entry(hooks: bool) {
             Err(e) => machinery(&e),
         },
         "observe" => checks::c06::observe_main(),
+        "compile-tier" => match checks::c02::compile_tier(0) {
+            Ok(st) => {
+                println!("{} modules, {} violation signatures, {:.1}s", st.states, st.violations.len(), st.wall_s);
+                for v in st.violations {
+                    println!("{}\n   {}", v.sig, &v.detail[..v.detail.len().min(700)]);
+                }
+            }
+            Err(e) => machinery(&e),
+        },
         "worker" => {
             let name = args.get(1).cloned().unwrap_or_default();
             checks::worker(&name).unwrap_or_else(|| machinery(&format!("unknown worker {name}")));
